@@ -44,6 +44,22 @@ KINDS = ['dur', 'rate', 'time_prob', 'rate_prob', 'beta']
 PROBKINDS = ('time_prob', 'rate_prob', 'beta')
 
 
+def drive(ctx, lines, driver=None, modules=None):
+    """ ctx.drive with a retry: when another check is rebuilding the shared Lean project at this moment the
+        driver can find an .olean missing; rebuild the driver's modules under the project lock and try again """
+    import os, subprocess, time
+    from harness import framework
+    driver = driver or DRIVER; modules = modules or DRIVER_MODULES
+    for attempt in range(4):
+        try:
+            return ctx.drive(driver, lines)
+        except framework.DriverError as e:
+            if attempt == 3 or not ('does not exist' in str(e) or 'could not be loaded' in str(e) or 'failed to read' in str(e)):
+                raise
+            time.sleep(2 + 3 * attempt)
+            subprocess.run([os.path.join(framework.VERIF, 'tools', 'lake'), 'build'] + list(modules), capture_output=True, timeout=3000)
+
+
 # ---------------------------------------------------------------------------
 # encoding
 
@@ -548,7 +564,7 @@ def correspond(ctx):
         for d1, d2 in dts:
             cases.append((u1, d1, u2, d2))
             lines.append(f'Q ratio {tok_unit(u1)} {tok_opt(d1)} {tok_unit(u2)} {tok_opt(d2)}')
-    out = ctx.drive(DRIVER, lines)
+    out = drive(ctx, lines)
     for (u1, d1, u2, d2), ln, ml in zip(cases, lines, out):
         try:
             r = ss.time_ratio(u1, d1, u2, d2); ires = 'ok'
@@ -576,7 +592,7 @@ def correspond(ctx):
             continue
         per.append((c, steps, len(all_lines)))
         all_lines += [s['line'] for s in steps]
-    out = ctx.drive(DRIVER, all_lines)
+    out = drive(ctx, all_lines)
     for c, steps, off in per:
         ml = out[off:off + len(steps)]
         div = compare_session(c, steps, ml)
@@ -610,7 +626,7 @@ def correspond(ctx):
             lines += [l1, l2]
     if not per:
         ctx.broke('correspondence', 'C06.init_time', 'no generated sim could be initialised: the Module.init_time path was not compared')
-    out = ctx.drive(DRIVER, lines)
+    out = drive(ctx, lines)
     for mc, name, kind, o, off in per:
         ml = out[off + 1]
         ctx.case(('module', lines[off], lines[off + 1]), nontrivial=o['factor'] not in (None, 1),
